@@ -308,6 +308,9 @@ class red_noise(_base_colored_noise):
             raise ValueError(f"Argument 'npts' must be <= {_INDEX_LIMIT}.")
 
         w_noise = self._whitenoise.get_series(npts)
+        if w_noise.size == 0:
+            # lfilter returns a zeroed final state for empty input; keep ours
+            return w_noise * self._scaling
         samples, self._zi = signal.lfilter(self._a, self._b, w_noise, zi=self._zi)
         return samples * self._scaling
 
